@@ -154,8 +154,10 @@ def main(prop, tier="quick", seed=0, jobs=None):
         random.Random(seed).shuffle(joblist)
     results = []
     ctx = mp.get_context("fork")
-    with cf.ProcessPoolExecutor(max_workers=min(nproc, max(1, len(joblist))), mp_context=ctx) as ex:
-        for r in ex.map(_worker, joblist, chunksize=1):
+    # one fresh process per task: harnesses monkeypatch modules of the code under test (oracle linear
+    # solver, step oracle, clock, ...) and must not see each other's patches
+    with ctx.Pool(processes=min(nproc, max(1, len(joblist))), maxtasksperchild=1) as pool:
+        for r in pool.imap(_worker, joblist, chunksize=1):
             results.append(r)
     results.sort(key=lambda r: r["idx"])
 
